@@ -8,7 +8,7 @@ import re
 from ..core import Ctx, RuleResult, finding, short
 from ..model import AnalysisError, norm
 from ..mutants import Mut
-from ..rules import dim, noop, posbound
+from ..rules import accum, dim, noop, posbound
 from ..rules.geom import LOOP_INDEX, ClassGeom
 from ..rules.util import lin_str, linear
 from ..tables import C09_DIM_EXCEPTIONS, C09_SIZE_EXCEPTIONS
@@ -394,6 +394,7 @@ def run(ctx: Ctx):
         noop.run_noop(p, "C09.6", GEOM_MODULES, floor=30),
         posbound.run_posbound(p, "C09.7", GEOM_MODULES, floor=6),
         _empty_guard(ctx),
+        accum.run_accum(p, "C09.9", "C09", floor=3),
     ]
 
 
